@@ -51,7 +51,7 @@ GENERATORS = [("constants", "src_constants.py"), ("ast_translation", "ast_transl
               ("ast_translation_zone_loader", "ast_translate_load.py"),
               ("ast_translation_chrono_templates", "ast_translate_chrono.py")]
 GENERATED = ["SrcConstants.v", "Translated.v", "Source64.v", "SourcePosix.v", "SourceFmtParse.v", "SourceDecode.v",
-             "SourceFixed.v", "SourceFmtOut.v", "SourceZone.v", "SourceFmtLoop.v", "SourceFmtTM.v", "SourceLoad.v", "SourceFmtWeek.v", "SourceSplit.v", "SourceNames.v"]
+             "SourceFixed.v", "SourceFmtOut.v", "SourceZone.v", "SourceFmtLoop.v", "SourceFmtTM.v", "SourceLoad.v", "SourceFmtWeek.v", "SourceSplit.v", "SourceNames.v", "SourceParseLoop.v"]
 
 
 def regen_constants():
@@ -101,7 +101,7 @@ TIE_PROPERTIES = {
     "ast_translation": ["C04", "C05", "C17"],
     "ast_translation_checked64": ["C04", "C05", "C17", "C01"],
     "ast_translation_posix_parser": ["C16", "C12", "C09", "C01"],
-    "ast_translation_fixed_and_format_output": ["C15", "C08", "C07"],
+    "ast_translation_fixed_and_format_output": ["C15", "C08", "C07", "C09"],
     "ast_translation_zone_queries": ["C01", "C02", "C11", "C14"],
     "ast_translation_zone_loader": ["C01", "C12", "C13", "C19", "C20"],
     "ast_translation_chrono_templates": ["C18", "C11"],
